@@ -8,7 +8,8 @@ import (
 )
 
 // VH_C08_StartAny: the real start-up path answered by a mirror view with arbitrary
-// numbers and 0-2 headers (or by a committed header: catch-up), then one event of any kind.
+// numbers and 0-2 headers (or by a committed header: catch-up), then 2 events of any kind
+// of which at most one brings new vote numbers (quick) / 3 events (thorough).
 func VH_C08_StartAny() {
 	vhOpts()
 	e := vhNewSM(true)
@@ -20,7 +21,12 @@ func VH_C08_StartAny() {
 	e.check(chkC08)
 	e.observeState("after-start")
 	verifrt.Reach("C08-start:started")
-	e.run(chkC08, vhEvents(), 1)
+	if verifrt.Thorough() {
+		e.run(chkC08, vhEvents(), 3)
+	} else {
+		e.viewsLeft = 1
+		e.run(chkC08, vhEvents(), 2)
+	}
 	if e.seen&vhSeenReplaying != 0 {
 		verifrt.Reach("C08-start:replaying-a-committed-header")
 	}
